@@ -16,6 +16,9 @@
 (*                         returned (only for connections with attr)       *)
 (*   closed                the client closed its end (fakenet OnClose)     *)
 (*   end closed            census after the scenario                       *)
+(*   hold / release        the broker held an answer back / released it    *)
+(*                         (overlapping authentications through one Dialer *)
+(*                         or Transport; informational, no action)         *)
 (*                                                                         *)
 (* Two specifications over the same variables:                             *)
 (*   TSpec  conformance: each line must be the corresponding action of     *)
@@ -33,12 +36,14 @@ Trace == ndJsonDeserialize(IOEnv.TRACE)
 Conns  == {1}
 Bug    == "none"
 MaxUse == 1000000
+OneMechanism == FALSE     \* one trace per connection: connections authenticated at once are judged each on its own
+OvFaults == {"none"}      \* (unused: OneMechanism is FALSE)
 
-VARIABLES cfg, sent, hv, authAt, failAt, closed, dialResult, fin, cst, round, c2s, s2c, srvClosed, uses, l, tid
+VARIABLES cfg, sent, hv, authAt, failAt, closed, dialResult, fin, cst, round, c2s, s2c, srvClosed, uses, conv, l, tid
 
 M == INSTANCE Sasl
 
-tvars == <<cfg, sent, hv, authAt, failAt, closed, dialResult, fin, cst, round, c2s, s2c, srvClosed, uses, l, tid>>
+tvars == <<cfg, sent, hv, authAt, failAt, closed, dialResult, fin, cst, round, c2s, s2c, srvClosed, uses, conv, l, tid>>
 
 NoCfg == [mech |-> "PLAIN", hsadv |-> "v0", creds |-> "right", fkind |-> "none", fstep |-> 0, fcode |-> 0, attr |-> FALSE]
 
@@ -48,7 +53,7 @@ TInit ==
   /\ failAt = [c \in Conns |-> -1] /\ closed = [c \in Conns |-> FALSE] /\ dialResult = [c \in Conns |-> "pending"]
   /\ fin = [c \in Conns |-> FALSE] /\ cst = [c \in Conns |-> "New"] /\ round = [c \in Conns |-> 0]
   /\ c2s = [c \in Conns |-> "none"] /\ s2c = [c \in Conns |-> "none"] /\ srvClosed = [c \in Conns |-> FALSE]
-  /\ uses = [c \in Conns |-> 0]
+  /\ uses = [c \in Conns |-> 0] /\ conv = M!NoConv
   /\ l = 1 /\ tid = ""
 
 CfgOf(e) == [mech |-> e.mech, hsadv |-> e.hsadv, creds |-> e.creds, fkind |-> e.fkind, fstep |-> e.fstep, fcode |-> e.fcode, attr |-> e.attr]
@@ -59,10 +64,10 @@ Reset(e) ==
   /\ failAt' = [c \in Conns |-> -1] /\ closed' = [c \in Conns |-> FALSE] /\ dialResult' = [c \in Conns |-> "pending"]
   /\ fin' = [c \in Conns |-> FALSE] /\ cst' = [c \in Conns |-> "New"] /\ round' = [c \in Conns |-> 0]
   /\ c2s' = [c \in Conns |-> "none"] /\ s2c' = [c \in Conns |-> "none"] /\ srvClosed' = [c \in Conns |-> FALSE]
-  /\ uses' = [c \in Conns |-> 0]
+  /\ uses' = [c \in Conns |-> 0] /\ conv' = M!NoConv
   /\ tid' = e.id
 
-Skip == UNCHANGED <<cfg, sent, hv, authAt, failAt, closed, dialResult, fin, cst, round, c2s, s2c, srvClosed, uses, tid>>
+Skip == UNCHANGED <<cfg, sent, hv, authAt, failAt, closed, dialResult, fin, cst, round, c2s, s2c, srvClosed, uses, conv, tid>>
 
 PreAuth(api) == api \in M!PreAuthApis
 
@@ -120,7 +125,7 @@ Step(e) ==
               THEN \/ M!DialReturnOK(1)
                    \* the connection was already handed to an internal user (Transport metadata loop): only the report
                    \/ cfg[1].attr /\ cst[1] = "Authenticated" /\ dialResult[1] = "ok"
-                      /\ UNCHANGED <<cfg, sent, hv, authAt, failAt, closed, dialResult, fin, cst, round, c2s, s2c, srvClosed, uses>>
+                      /\ UNCHANGED <<cfg, sent, hv, authAt, failAt, closed, dialResult, fin, cst, round, c2s, s2c, srvClosed, uses, conv>>
               ELSE M!DialReturnErr(1)
          /\ UNCHANGED tid
     [] e.ev = "closed" -> (M!FailClose(1) \/ M!FinalClose(1)) /\ UNCHANGED tid
@@ -133,7 +138,7 @@ TSpec == TInit /\ [][TNext]_tvars
 (***************************************************************************)
 (* Monitor: observable variables only, no guards                           *)
 (***************************************************************************)
-HidUnchanged == UNCHANGED <<cst, round, c2s, s2c, srvClosed, uses>>
+HidUnchanged == UNCHANGED <<cst, round, c2s, s2c, srvClosed, uses, conv>>
 FailNow == failAt' = [failAt EXCEPT ![1] = IF @ < 0 THEN Len(sent[1]) ELSE @]
 Log(api, form) == sent' = [sent EXCEPT ![1] = Append(@, M!Entry(api, form))]
 
